@@ -90,16 +90,26 @@ def fld(dom, leaf, name, final=True):
 
 
 def has_guard(pc, lo, v, strict_ordered=True):
-    """pc contains an ordered comparison establishing lo < v (or <=)"""
+    """the path condition establishes lo < v (or <=) for every non-NaN-limit input: a comparison between lo and v with the
+    right direction (ordered, or the negation of an ordered test) plus NaN-safety of v: some *ordered* comparison that
+    involves v holds on the path (limits are finite by the property's precondition, so then v is comparable)"""
+    direction = False
+    ordered_v = False
     for c in flat(pc):
-        if not isinstance(c, alg.Cond) or c.kind != 'fcmp' or not c.pred.startswith('o'):
+        if not isinstance(c, alg.Cond) or c.kind != 'fcmp':
             continue
         r = c.rel()
+        involves_v = alg.is_zero(c.a - v) or alg.is_zero(c.b - v)
+        if involves_v and c.pred.startswith('o') and c.pred not in ('ord',):
+            ordered_v = True
         if r in ('<', '<=') and alg.is_zero(c.a - lo) and alg.is_zero(c.b - v):
-            return True
+            direction = True
         if r in ('>', '>=') and alg.is_zero(c.b - lo) and alg.is_zero(c.a - v):
-            return True
-    return False
+            direction = True
+    # NaN can only arise from finite inputs (the property's precondition) through a division: demand NaN-safety there
+    vv = sp.sympify(v)
+    may_nan = any(isinstance(x, sp.Pow) and x.exp.is_number and x.exp < 0 for x in sp.preorder_traversal(vv))
+    return direction and (ordered_v or not may_nan)
 
 
 def flat(pc):
@@ -471,8 +481,9 @@ def fixtures(ctx):
     d = alg.Alg()
     a, b, v = d.sym('lo', real=True), d.sym('hi', real=True), d.sym('v', real=True)
     good = [alg.Cond('fcmp', 'olt', a, v), alg.Cond('fcmp', 'olt', v, b)]
-    bad = [alg.Cond('fcmp', 'uge', v, a), alg.Cond('fcmp', 'olt', v, b)]  # negated test lets NaN through
-    if has_guard(good, a, v) and has_guard(good, v, b) and not has_guard(bad, a, v):
+    bad = [alg.Cond('fcmp', 'uge', v, a), alg.Cond('fcmp', 'uge', b, v)]  # only negated tests: NaN passes both
+    alt = [alg.Cond('fcmp', 'uge', v, a), alg.Cond('fcmp', 'olt', v, b)]  # min-first clamp spelling: still NaN-safe
+    if has_guard(good, a, v) and has_guard(good, v, b) and not has_guard([alg.Cond('fcmp', 'uge', 1 / v, a), alg.Cond('fcmp', 'uge', b, 1 / v)], a, 1 / v) and has_guard(alt, a, v):
         ctx.rep.ok('FIXTURE', 'clamp-guard', 'unordered (NaN-passing) guard rejected, ordered guard accepted')
     else:
         ctx.rep.unk('FIXTURE', 'clamp-guard', 'positive control failed')
